@@ -1550,8 +1550,8 @@ func (dsc *dataStoreCommand) lmove(srcKeyName, destKeyName string, srcLeft, dest
 		return
 	}
 
-	destList, err := dsc.ensureListUnlocked(destKeyName)
-	if err != nil {
+	// the destination must be a list (or missing) before anything is removed
+	if _, err = dsc.getListUnlocked(destKeyName); err != nil {
 		output.data = *err
 		return
 	}
@@ -1566,6 +1566,14 @@ func (dsc *dataStoreCommand) lmove(srcKeyName, destKeyName string, srcLeft, dest
 		dsc.rpopUnlocked(srcKeyName, srcList, item)
 	}
 	element := item.element
+
+	// look the destination up only now: when source and destination are the
+	// same one-element list, the pop above has removed the key
+	destList, err := dsc.ensureListUnlocked(destKeyName)
+	if err != nil {
+		output.data = *err
+		return
+	}
 
 	// place the item into the dest list
 	if destLeft {
